@@ -34,14 +34,27 @@ MANIFEST = dict(
          'data and touch nothing that existed before; two writers to the SAME destination leave old or one complete '
          'content; the temp-name loop settles on the least free index and no interleaving makes an index exceed N+2 '
          '(N = highest stale temp index); BSP.save = rebuild phase without file-system operations + one writer. '
+         'One object used for several with-blocks (round 3, SM/AtomicReuse.v): the generated object aw_obj carries the '
+         'attribute slots __exit__ mentions, their values after __init__, what __enter__/make_tempfile assign on every '
+         'entry and which attributes are constant; reuse_indep aw_obj (kernel enumeration of EVERY attribute state) says the '
+         'exit protocol is the same whatever earlier uses left behind, and then every use of every history of successful / '
+         'abandoned / failing / killed uses is a good single use relative to the directory it started in, and temp files '
+         'do not accumulate (c12_reuse_history, c12_reuse_no_temp_accumulates; a flag attribute that nothing resets is '
+         'refuted by a computed history). '
          'translate/c12_atomic.py transliterates __exit__ statement by statement (fail-closed) and reads the facts of '
-         'make_tempfile and BSP.save; the kernel computes the decision trees and 30 named obligations (order of close / '
+         'make_tempfile and BSP.save (helper methods of the class and single-assignment locals are inlined first, '
+         'keyword and positional arguments are the same call); the kernel computes the decision trees and 32 named obligations (order of close / '
          'rename / unlink, no rename after a failing close or a body exception, every failure path unlinks, no exception '
          'swallowed, loop shape, only AtomicWriter output in BSP.save). The real AtomicWriter and BSP.save (existing and '
          'fresh destination, raising body, raising rebuild phase) are run under file-system interposition with a kill '
          '(os._exit in a forked child) before every operation, an OSError at every operation, all interleavings / all '
          'pairs of operation boundaries of two writers and an OSError at every operation of several schedules; traces, '
          'directories, rename and raised/returned outcomes are compared with the tree machine of the generated program. '
+         'Reuse histories of one real object (words over S = body returns / B = body raises, an OSError at every operation '
+         'of the whole history, a kill before every operation of the later uses) are judged use by use by the oracle and '
+         'compared with corr_hist aw_obj; the instance attributes of the real object after __init__, inside every body and '
+         'after every __exit__ are compared with the generated object facts and the leaf environment of __exit__ '
+         '(corr_attrs). '
          'The kernel interpreter and the transliteration are themselves tied to CPython: fixed and random __exit__ bodies '
          'of the subset run against mock objects under result oracles and must perform the same calls and end the same '
          'way as walk (exit_tree ..).',
@@ -53,8 +66,11 @@ MANIFEST = dict(
          'can satisfy it); pathlib swallows an OSError from mkdir of an existing directory, so that fault is only injected '
          'when the directory is created. Exit programs outside the five-flag family are modelled and compared but the '
          'theorems do not apply to them (obligation exit_protocol_in_model_family). Buffering inside BufferedWriter/'
-         'TextIOWrapper, Path.mkdir internals and BSP lump serialisation are only exercised, not modelled; reuse of one '
-         'AtomicWriter for several with-blocks is not covered.',
+         'TextIOWrapper, Path.mkdir internals and BSP lump serialisation are only exercised, not modelled. Reuse: the '
+         'object facts (_object_facts in the translator) are read, not proved; they are tied by the executed attribute '
+         'correspondence. Attribute values outside None/True/False/handle/temp name/destination/exception are "unknown" '
+         '(reading one is outside the model: obligation exit_no_unmodelled_step). make_tempfile called while a temp file '
+         'is open (nested entry: "not reentrant") is not covered.',
 )
 
 IMPORTS = ['SV.SM.AtomicWriter', 'SV.SM.AtomicExit', 'SV.SM.AtomicReuse', 'SV.Gen.AtomicWriter_gen', 'Coq.Lists.List', 'Coq.Bool.Bool',
@@ -850,8 +866,8 @@ def _single_scenario(ck0: Ck, work: Path, si: int, sc: dict, do_model: bool, cas
 def eval_cases(ck: Ck, cases: list[dict], tag: str) -> None:
     bad: list[dict] = []
     n = 0
-    for lo in range(0, len(cases), 400):
-        part = cases[lo:lo + 400]
+    for lo in range(0, len(cases), 700):
+        part = cases[lo:lo + 700]
         vals = ck.coq_eval(IMPORTS, [coq_list(c['coq'] for c in part)], name=f'aw_{tag}', preamble=PRE)
         if vals is None:
             ck.obligation(f'correspondence:{tag}', False, 'model could not be evaluated')
@@ -1619,8 +1635,8 @@ def _data(s: dict) -> bytes:
 def eval_cases2(ck: Ck, cases: list[dict]) -> None:
     bad = []
     n = 0
-    for lo in range(0, len(cases), 450):
-        part = cases[lo:lo + 450]
+    for lo in range(0, len(cases), 900):
+        part = cases[lo:lo + 900]
         vals = ck.coq_eval(IMPORTS, [coq_list(c['coq'] for c in part)], name='aw_two', preamble=PRE)
         if vals is None:
             ck.obligation('correspondence:two-writers', False, 'model could not be evaluated')
@@ -2015,14 +2031,23 @@ def run(ck: Ck) -> None:
                'injectable raw operation (mkdir, open, write, flush-write, close, replace, unlink); two writers (six pairs, '
                'one with a shared destination) are run under EVERY interleaving (DFS over schedules) or at every pair of '
                'operation boundaries (A^k1 B^k2 and B^k2 A^k1), and with one OSError at every operation of 3-6 schedules. '
-               'A case is distinct by (scenario kind, buffer size, kill/fault index), by the full schedule, or by '
-               '(pair, schedule, fault index); all are non-trivial (each changes where the protocol is interrupted). '
+               'Reuse histories: ONE AtomicWriter object, one with-block per letter of a word over S (body returns) / B (body '
+               'raises after some writes) — S, B, SS, SB, BS, BB, SSB, BSB, SBS, SBB (+ longer and random words when '
+               'escalated), bytes/text, buffer sizes, stale temps, missing destination — run fault-free, with one OSError at '
+               'EVERY injectable operation of the whole history, and killed before every operation of the later uses; every '
+               'use is judged relative to the directory it started in, and the instance attributes of the object are '
+               'snapshotted after __init__, inside every body and after every __exit__. '
+               'A case is distinct by (scenario kind, buffer size, kill/fault index), by the full schedule, by '
+               '(pair, schedule, fault index), or by (history, fault/kill index, use); all are non-trivial (each changes where '
+               'the protocol is interrupted). '
                'Interpreter tie: program = random __exit__ body of the translator subset (2-5 top-level statements, depth <= 3, '
                '<= 5 file-system calls) x {body returned, body raised} x 10 result oracles; distinct by (program, exc, oracle), '
                'non-trivial when at least one call is performed.')
     ck.trusted.append('hand-written machines SM/AtomicWriter.v (flags) and SM/AtomicExit.v (decision trees + interpreter of '
                       'the generated __exit__ program), tied by the proved refinement, by the kernel-computed obligations on '
-                      'the generated program and by the executed crash/fault/interleaving correspondence on every run')
+                      'the generated program and by the executed crash/fault/interleaving correspondence on every run; '
+                      'SM/AtomicReuse.v (attribute states, histories) on top of them, its generated object facts '
+                      '(translate/c12_atomic._object_facts) tied by the executed history and attribute correspondences')
     ck.trusted.append('checks/c12.py interposer: io.FileIO subclass under the BufferedWriter/TextIOWrapper, patched io.open / '
                       'os.mkdir / os.unlink / os.replace; POSIX rename atomicity and O_EXCL are assumed, not verified')
     ck.assumptions += [
